@@ -311,6 +311,7 @@ def run_case(case: dict, seed: int) -> dict:
         w = World(root, uni, STORES, idx_store="remote")
         w.alg = alg
         w.store_spelling = case.get("ssp", "plain")
+        w.reuse = bool(case.get("reuse"))
         init = {s: {x: st for x, st in objs.items() if st != "none"} for s, objs in case["init"].items()}
         w.setup(init)
         w.fault_kind = case.get("fk", 0)
@@ -469,6 +470,24 @@ def index_elsewhere_cases() -> list[dict]:
                     push = {"op": "Transfer", "src": "cache", "dst": "remote", "req": ids, "shallow": shallow, "idx": True, "F": []}
                     cases.append({"init": init, "kind": "index-elsewhere", "useed": len(cases) % 3,
                                   "ops": [first, push, {"op": "Status", "s": "remote", "ids": ids, "shallow": False, "idx": False}]})
+    return cases
+
+
+def handle_reuse_cases() -> list[dict]:
+    """Long-lived store handles: one handle writes, objects arrive through another handle, the first one is asked."""
+    cases = []
+    allo = FILES + list(DIRS)
+    for s, other in (("cache", "remote"), ("remote", "cache")):
+        fresh = "ok_p" if other == "cache" else "ok_u"
+        for first in ("f1", "f3", "d1"):
+            for req in (["f2", "f3"], ["d2", "f2", "f3"], ["f1", "f2", "f3"]):
+                for useed in (0, 1, 2):
+                    ops = [{"op": "AddObj", "s": s, "x": first},
+                           {"op": "Transfer", "src": other, "dst": s, "req": req, "shallow": True, "idx": False, "F": []},
+                           {"op": "Status", "s": s, "ids": allo, "shallow": True, "idx": False},
+                           {"op": "CompareStatus", "a": other, "b": s, "ids": allo, "shallow": True}]
+                    cases.append({"init": {other: {x: fresh for x in allo}, s: {}}, "ops": ops, "kind": "handle-reuse", "reuse": True,
+                                  "useed": useed})
     return cases
 
 
@@ -821,6 +840,7 @@ def check_C12(run: core.Run, replay=None):
         cases += many_oids_cases(rng, 6 if quick else 40)
         cases += stale_cases(rng, 400 if quick else 10**9)
         cases += index_elsewhere_cases()
+        cases += handle_reuse_cases()
         # indexed pushes from sources that lack some of the requested objects (files missing on both sides)
         partial = [c for c in tlc_generate("c11quick" if quick else "c11")["c11"] if c["idx"]]
         for c in _sample(partial, 600 if quick else 10**9, rng):
